@@ -1,54 +1,112 @@
 """Which units / harness groups decide which property (DESIGN.md sections 5 and 6).
 
 kani:  list of (group file stem, harness-name filter or None)
-verus: list of unit names (contracts/<unit>.vrs)
-Only failures whose clause id starts with '<property>.' count for that property; a harness or
-unit may serve several properties.
+verus: list of (unit name, [clause-id prefixes that count for the property besides '<property>.'])
+Only failures whose clause id matches count for that property; a harness or unit may serve several
+properties (a failure belonging to another property is listed in the evidence, not raised here).
 """
 
-U1_WRITE = ["U1.write", "U1.end", "U1.flush", "U1.new"]
-U2 = ("u2_writers", ["U2."])
-U3 = ("u3_resultset", ["U3."])
+U1 = "u1_packet"
+U2 = "u2_writers"
+U3 = "u3_resultset"
+U4 = "u4_params"
+U4S = "u4_params_safety"
+U5 = "u5_hub"
 
 PROPS = {
-    "dev-k4v": {"title": "dev", "kani": [("k4_values", None)], "verus": []},
-    "dev-k2": {"title": "dev", "kani": [("k2_commands", None)], "verus": []},
-    "dev-k3": {"title": "dev", "kani": [("k3_decode", None)], "verus": []},
-    "dev-k5": {"title": "dev", "kani": [("k5_errors", None)], "verus": []},
-    "dev-k6": {"title": "dev", "kani": [("k6_deps", None)], "verus": []},
     "C01": {
         "title": "Inbound packets are reassembled exactly under every transport chunking",
         "kani": [("k1_frames", None)],
-        "verus": [("u1_packet", ["U1.next"])],
+        "verus": [(U1, ["U1.next"]), (U5, ["C02.run.log", "U5.run"])],
+    },
+    "C02": {
+        "title": "Each client command reaches exactly the right shim callback, verbatim",
+        "kani": [("k2_commands", ["k2_parse_text", "k2_parse_stmt", "k2_parse_other"])],
+        "verus": [(U5, ["U5."])],
+    },
+    "C03": {
+        "title": "Exactly one complete, protocol-conformant response per command",
+        "kani": [],
+        "verus": [(U2, ["U2."]), (U3, ["U3."]), (U5, ["U5."])],
     },
     "C04": {
         "title": "Outbound bytes are well-framed, including messages of 16 MiB and more",
-        "kani": [],
-        "verus": [("u1_packet", U1_WRITE)],
+        "kani": [("k6_deps", ["k6_byteorder_le"])],
+        "verus": [(U1, ["U1.write", "U1.end", "U1.flush", "U1.new"])],
+    },
+    "C05": {
+        "title": "Response sequence ids continue the request's and wrap modulo 256",
+        "kani": [("k1_frames", None)],
+        "verus": [(U1, ["C04.end", "C04.write", "U1.end"]), (U5, [])],
+    },
+    "C06": {
+        "title": "Text-protocol result values arrive unchanged",
+        "kani": [("k6_deps", ["k6_write_lenenc_int", "k6_write_lenenc_str"]), ("k4_values", ["k4_bytes_text", "k4_option_text", "k4_forwarders", "k4_forwarders_str"])],
+        "verus": [(U3, ["U3.write_col", "U3.end_row", "C07.row"])],
+    },
+    "C07": {
+        "title": "Binary-protocol rows arrive unchanged, with an exact NULL bitmap",
+        "kani": [("k4_ints", None), ("k4_values", None), ("k6_deps", ["k6_write_lenenc_int", "k6_write_lenenc_str", "k6_byteorder_le"])],
+        "verus": [(U3, ["U3.write_col", "U3.end_row", "C03.shape"])],
     },
     "C08": {
         "title": "Prepared-statement parameters are decoded to exactly what the client bound",
         "kani": [("k2_commands", ["k2_parse_stmt"]), ("k3_decode", None)],
-        "verus": [("u4_params", ["U4."])],
+        "verus": [(U4, ["U4."])],
     },
     "C09": {
         "title": "Column metadata reaches the client exactly as the shim declared it",
         "kani": [("k6_deps", ["k6_write_lenenc_int", "k6_write_lenenc_str", "k6_byteorder_le"])],
-        "verus": [U2, U3],
+        "verus": [(U2, ["U2."]), (U3, ["U3.pre", "U3.start", "U3.rw.new", "U3.new"])],
+    },
+    "C10": {
+        "title": "Statement ids are executable exactly between PREPARE reply and CLOSE",
+        "kani": [],
+        "verus": [(U3, ["U3.reply"]), (U5, ["U5.", "C17.clear", "C17.append", "C02.run.log"])],
+    },
+    "C11": {
+        "title": "Greeting is well-formed and no command is served before the shim authenticates",
+        "kani": [("k2_commands", ["k2_handshake_fixed", "k2_handshake_user"]), ("k5_errors", ["k5_emitted"])],
+        "verus": [(U5, ["U5.", "C12.init", "C05.init", "C12.run_on"])],
+    },
+    "C12": {
+        "title": "The server never waits for input while it owes a flushed reply",
+        "kani": [],
+        "verus": [(U1, ["U1.next", "U1.flush"]), (U5, ["U5."])],
     },
     "C13": {
         "title": "Errors reach the client with the exact code, SQLSTATE and message",
         "kani": [("k5_errors", None)],
-        "verus": [U2, U3],
+        "verus": [(U2, ["U2."]), (U3, ["U3.pre", "U3.finish"])],
     },
     "C14": {
         "title": "Completion counts arrive exactly, including for zero-column resultsets",
         "kani": [("k6_deps", ["k6_write_lenenc_int", "k6_read_lenenc_int", "k6_byteorder_le"])],
-        "verus": [U2, U3],
+        "verus": [(U2, ["U2."]), (U3, ["U3.pre", "U3.finish", "U3.end_row", "C03.finish", "C03.finalize", "C07.row.packet"])],
     },
     "C15": {
         "title": "Integer results are exact or refused, never silently altered",
         "kani": [("k4_ints", None)],
         "verus": [],
+    },
+    "C16": {
+        "title": "Bound parameter types persist per statement across executions",
+        "kani": [],
+        "verus": [(U4, ["U4.", "C08.next"]), (U5, ["C10.", "C17.clear", "C17.append", "C02.run.log", "U5.run"])],
+    },
+    "C17": {
+        "title": "Long data is concatenated in order, delivered once, and never leaks",
+        "kani": [("k2_commands", ["k2_parse_stmt"])],
+        "verus": [(U4, ["U4.", "C08.next"]), (U5, ["C10.", "C02.run.log", "U5.run"])],
+    },
+    "C19": {
+        "title": "Connection end and transport faults are reported, never masked",
+        "kani": [],
+        "verus": [(U1, ["C01.next.err", "C01.next.none"]), (U2, ["U2."]), (U3, ["U3."]), (U5, ["U5.", "C12.run", "C20.run", "C20.init"])],
+    },
+    "C20": {
+        "title": "No client byte sequence can crash or wedge a connection",
+        "kani": [("k1_frames", None), ("k2_commands", None), ("k3_decode", ["k3_parse_fixed", "k3_parse_bytes", "k3_parse_temporal"])],
+        "verus": [(U1, ["U1.next", "C01.next"]), (U4S, ["U4."]), (U5, ["U5.", "C12.run", "C12.init"])],
     },
 }
